@@ -226,6 +226,10 @@ func (p *protocol) handleTransactionPayload(ctx context.Context, connection grpc
 	}
 
 	// it's saved, remove the job
+	if p.privatePayloadReceiver == nil {
+		// no node DID configured: there is no private payload scheduler (see Configure), so there is no job to remove
+		return nil
+	}
 	return p.privatePayloadReceiver.Finished(ref)
 }
 
